@@ -162,3 +162,71 @@ Theorem C16_stake_roundtrip_example :
   truncate (tokens_from_shares v 666666666666666666) = 0.
 Proof. exact roundtrip_example. Qed.
 Print Assumptions C16_stake_roundtrip_example.
+
+(** ---------------------------------------------------------------------------------------------
+    The read-only method [delegation] (precompiles/staking/query.go) against the native
+    Query/Delegation, for every validator record (any tokens / shares, i.e. after any slashes) and
+    every delegation: the same shares, and the same balance - what the shares are worth in whole
+    tokens, rounded DOWN. *)
+Theorem C16_stake_delegation_query_eq_native :
+  forall v sh,
+    native_delegation_query (Some v) (Some sh) = QOk sh (truncate (tokens_from_shares v sh)) /\
+    precompile_delegation_query (Some v) (Some sh) = Some (sh, truncate (tokens_from_shares v sh)).
+Proof. exact delegation_query_eq_native. Qed.
+Print Assumptions C16_stake_delegation_query_eq_native.
+
+(** in every state (validator record or none, delegation or none) the precompile reports numbers
+    exactly when the query reports them, or (0, 0) when the query says NotFound *)
+Theorem C16_stake_delegation_query_agrees :
+  forall ov od sh b,
+    precompile_delegation_query ov od = Some (sh, b) <->
+    native_delegation_query ov od = QOk sh b \/
+    (native_delegation_query ov od = QNotFound /\ sh = 0 /\ b = 0).
+Proof. exact delegation_query_agrees. Qed.
+Print Assumptions C16_stake_delegation_query_agrees.
+
+Theorem C16_stake_delegation_query_not_found :
+  forall ov, native_delegation_query ov None = QNotFound /\ precompile_delegation_query ov None = Some (0, 0).
+Proof. exact delegation_query_not_found. Qed.
+Print Assumptions C16_stake_delegation_query_not_found.
+
+(** the truncation rule in integers: with N = shares * tokens and S = the validator's shares the
+    reported balance is floor(N / S), or one more when N / S lies within 10^-18 / 2 below the next
+    integer (LegacyDec.Quo rounds at 18 digits before TruncateInt) ... *)
+Theorem C16_stake_delegation_balance_floor :
+  forall v sh, 0 <= sh -> 0 <= v_tokens v -> 0 < v_shares v ->
+    sh * v_tokens v / v_shares v <= delegation_balance v sh <= sh * v_tokens v / v_shares v + 1.
+Proof. exact delegation_balance_floor. Qed.
+Print Assumptions C16_stake_delegation_balance_floor.
+
+(** ... and exactly floor(N / S) otherwise *)
+Theorem C16_stake_delegation_balance_exact :
+  forall v sh, 0 <= sh -> 0 <= v_tokens v -> 0 < v_shares v ->
+    2 * prec * ((sh * v_tokens v) mod v_shares v) < (2 * prec - 1) * v_shares v ->
+    delegation_balance v sh = sh * v_tokens v / v_shares v.
+Proof. exact delegation_balance_exact. Qed.
+Print Assumptions C16_stake_delegation_balance_exact.
+
+Theorem C16_stake_delegation_balance_rate_one :
+  forall v sh, 0 <= sh -> 0 < v_tokens v -> v_shares v = of_int (v_tokens v) ->
+    delegation_balance v sh = truncate sh.
+Proof. exact delegation_balance_rate_one. Qed.
+Print Assumptions C16_stake_delegation_balance_rate_one.
+
+(** non-vacuity: two delegators (10^18 and 10^18 + 10), the validator slashed by 5 %: the second
+    delegation is worth 950000000000000009.75 tokens; both routes report ...009 *)
+Theorem C16_stake_delegation_query_slashed_example :
+  precompile_delegation_query (Some w_slashed) (Some w_slashed_del) = Some (w_slashed_del, 950000000000000009) /\
+  native_delegation_query (Some w_slashed) (Some w_slashed_del) = QOk w_slashed_del 950000000000000009 /\
+  w_slashed_del * v_tokens w_slashed / v_shares w_slashed = 950000000000000009.
+Proof. exact delegation_query_slashed_example. Qed.
+Print Assumptions C16_stake_delegation_query_slashed_example.
+
+(** a balance rounded to the NEAREST integer (RoundInt instead of TruncateInt) is not the query's
+    answer: one unit more, and more than ValidateUnbondAmount lets the delegator take out *)
+Theorem C16_stake_delegation_balance_rounded_refuted :
+  exists v sh, 0 <= sh /\ 0 <= v_tokens v /\ 0 < v_shares v /\
+    delegation_balance_rounded v sh = delegation_balance v sh + 1 /\
+    (exists sht, shares_from_tokens_trunc v (delegation_balance_rounded v sh) = Some sht /\ sh < sht).
+Proof. exact delegation_balance_rounded_refuted. Qed.
+Print Assumptions C16_stake_delegation_balance_rounded_refuted.
